@@ -626,4 +626,50 @@ theorem encodeHeader_congr (t : Int) (a b : Bytes) (hl : a.length = b.length) (h
   unfold encodeHeader; rw [hl, hc]
 
 
+/-! ### crash states byte by byte -/
+
+theorem mixAux_getElem? (S : Nat) (T : Nat → Bool) (p : Nat) (o l : Bytes) (q : Nat)
+    (hq : q < (mixAux S T p o l).length) :
+    (mixAux S T p o l)[q]? = l[q]? ∨ (mixAux S T p o l)[q]? = o[q]? ∨ (mixAux S T p o l)[q]? = some 0 := by
+  induction l generalizing p o q with
+  | nil => right; left; simp [mixAux]
+  | cons x xs ih =>
+    cases o with
+    | nil =>
+      cases q with
+      | zero => simp only [mixAux]; by_cases h : T (p / S) <;> simp [h]
+      | succ q =>
+        simp only [mixAux, List.length_cons] at hq ⊢
+        simpa using ih (p+1) [] q (by omega)
+    | cons y ys =>
+      cases q with
+      | zero => simp only [mixAux]; by_cases h : T (p / S) <;> simp [h]
+      | succ q =>
+        simp only [mixAux, List.length_cons] at hq ⊢
+        simpa using ih (p+1) ys q (by omega)
+
+theorem logical_getElem? (old : Bytes) (t : Int) (d : Bytes) (k j : Nat) (hk : k = 0 → j = 0) (q : Nat) :
+    (logical old (saveWrites t d) k j)[q]? = (saveComplete old t d)[q]? ∨
+    (logical old (saveWrites t d) k j)[q]? = old[q]? := by
+  rcases logical_cases old t d k j hk with h | ⟨n, h⟩
+  · right; rw [h]
+  · rw [h, saveComplete_eq]
+    have h16 := encodeHeader_length t d
+    have hlt : (d.take n).length ≤ d.length := by simp; omega
+    have hltn : (d.take n).length ≤ n := List.length_take_le n d
+    have e1 : ∀ X : Bytes, 16 ≤ q → (encodeHeader t d ++ X)[q]? = X[q - 16]? := by
+      intro X hq; rw [List.getElem?_append_right (by omega), h16]
+    by_cases hq : q < 16
+    · left
+      rw [List.getElem?_append_left (by omega), List.getElem?_append_left (by omega)]
+    · by_cases hq2 : q - 16 < (d.take n).length
+      · left
+        rw [e1 _ (by omega), e1 _ (by omega), List.getElem?_append_left hq2,
+          List.getElem?_append_left (show q - 16 < d.length by omega), List.getElem?_take_of_lt (by omega)]
+      · right
+        rw [e1 _ (by omega), List.getElem?_append_right (by omega), List.getElem?_drop]
+        congr 1
+        omega
+
+
 end Cppcms.C18
